@@ -467,3 +467,62 @@ mod tetst {
         }
     }
 }
+
+#[cfg(feature = "verif_hooks")]
+impl InfixOpManager {
+    pub fn verif_entries(&self) -> Vec<(String, i32, bool, bool, usize)> {
+        let binding = self.store.lock().unwrap();
+        let mut ans: Vec<_> = binding
+            .iter()
+            .map(|(op, InfixOpConfig(p, t, a, f))| {
+                (
+                    op.clone(),
+                    *p,
+                    matches!(t, InfixOpType::SETTER),
+                    *a == InfixOpAssociativity::LEFT,
+                    Arc::as_ptr(f) as *const () as usize,
+                )
+            })
+            .collect();
+        ans.sort();
+        ans
+    }
+
+    pub fn verif_clear(&self) {
+        self.store.lock().unwrap().clear();
+    }
+}
+
+#[cfg(feature = "verif_hooks")]
+impl PrefixOpManager {
+    pub fn verif_entries(&self) -> Vec<(String, usize)> {
+        let binding = self.store.lock().unwrap();
+        let mut ans: Vec<_> = binding
+            .iter()
+            .map(|(op, f)| (op.clone(), Arc::as_ptr(f) as *const () as usize))
+            .collect();
+        ans.sort();
+        ans
+    }
+
+    pub fn verif_clear(&self) {
+        self.store.lock().unwrap().clear();
+    }
+}
+
+#[cfg(feature = "verif_hooks")]
+impl PostfixOpManager {
+    pub fn verif_entries(&self) -> Vec<(String, usize)> {
+        let binding = self.store.lock().unwrap();
+        let mut ans: Vec<_> = binding
+            .iter()
+            .map(|(op, f)| (op.clone(), Arc::as_ptr(f) as *const () as usize))
+            .collect();
+        ans.sort();
+        ans
+    }
+
+    pub fn verif_clear(&self) {
+        self.store.lock().unwrap().clear();
+    }
+}
